@@ -293,8 +293,15 @@ impl<A: Float> AffFuncG<A> {
     #[inline(always)]
     #[rustfmt::skip]
     pub fn translation(dim: usize, offset: Array1<A>) -> AffFuncG<A> {
+        assert_eq!(
+            offset.shape()[0],
+            dim,
+            "Offset must have one entry per dimension: {} vs {}",
+            offset.shape()[0],
+            dim
+        );
         AffFuncG::<A>::from_mats(
-            Array2::zeros((offset.shape()[0], dim)),
+            Array2::eye(dim),
             offset
         )
     }
